@@ -176,6 +176,20 @@ def sym_float(x=0.0):
     return builtins.float(x)
 
 
+def as_type_stub(fn):
+    """wrap a float()-like function so that it can also stand for the TYPE in isinstance(x, (float, int))"""
+    class _Meta(type):
+        def __instancecheck__(cls, inst):
+            return isinstance(inst, builtins.float)
+
+        def __call__(cls, *a):
+            return fn(*a)
+
+    class float(metaclass=_Meta):      # noqa: A001 - deliberately named like the builtin
+        pass
+    return float
+
+
 class HashVal:
     """result of the stubbed hash(): an unknown injective function of the hashed structure.
     Two HashVals are equal iff their structures are equal (symbolic components compared by the solver)."""
@@ -275,10 +289,10 @@ def install():
     cond.warnings = warnings_stub
     unit.atan = symmath.atan
     unit.tan = symmath.tan
-    unit.float = sym_float
+    unit.float = as_type_stub(sym_float)
     unit.hash = sym_hash
-    cond.float = sym_float
-    helpers.float = sym_float
+    cond.float = as_type_stub(sym_float)
+    helpers.float = as_type_stub(sym_float)
     _INSTALLED = True
 
 
